@@ -179,19 +179,37 @@ func scenario(name string, prefix int, kinds []int, useDefaultExecutor bool) {
 	}
 }
 
-func VH_c05_two_completers()           { scenario("S|F", 0, []int{kSuccess, kFailure}, false) }
-func VH_c05_three_completers()         { scenario("S|F|C", 1, []int{kSuccess, kFailure, kComplete}, false) }
-func VH_c05_reg_vs_complete_0()        { scenario("0+reg|S", 0, []int{kOnComplete, kSuccess}, false) }
-func VH_c05_reg_vs_complete_1()        { scenario("1+reg|F", 1, []int{kOnFailure, kFailure}, false) }
-func VH_c05_two_regs_vs_complete_0()   { scenario("0+reg|reg|S", 0, []int{kOnComplete, kOnSuccess, kSuccess}, false) }
-func VH_c05_two_regs_vs_complete_1()   { scenario("1+reg|reg|C", 1, []int{kOnComplete, kForeach, kComplete}, false) }
-func VH_c05_two_regs_vs_complete_2()   { scenario("2+reg|reg|S", 2, []int{kOnComplete, kOnComplete, kSuccess}, false) }
-func VH_c05_two_regs_vs_complete_3()   { scenario("3+reg|reg|S", 3, []int{kOnComplete, kOnComplete, kSuccess}, false) }
-func VH_c05_two_regs_vs_complete_4()   { scenario("4+reg|reg|F", 4, []int{kOnComplete, kOnFailure, kFailure}, false) }
-func VH_c05_two_regs_no_completion_3() { scenario("3+reg|reg", 3, []int{kOnComplete, kOnSuccess}, false) }
-func VH_c05_reg_and_two_completers()   { scenario("2+reg|S|C", 2, []int{kOnComplete, kSuccess, kComplete}, false) }
-func VH_c05_default_executor()         { scenario("go-executor 1+reg|S", 1, []int{kOnComplete, kSuccess}, true) }
-func VH_c05_default_executor_2()       { scenario("go-executor 0+reg|reg|S", 0, []int{kOnComplete, kOnSuccess, kSuccess}, true) }
+func VH_c05_two_completers()    { scenario("S|F", 0, []int{kSuccess, kFailure}, false) }
+func VH_c05_three_completers()  { scenario("S|F|C", 1, []int{kSuccess, kFailure, kComplete}, false) }
+func VH_c05_reg_vs_complete_0() { scenario("0+reg|S", 0, []int{kOnComplete, kSuccess}, false) }
+func VH_c05_reg_vs_complete_1() { scenario("1+reg|F", 1, []int{kOnFailure, kFailure}, false) }
+func VH_c05_two_regs_vs_complete_0() {
+	scenario("0+reg|reg|S", 0, []int{kOnComplete, kOnSuccess, kSuccess}, false)
+}
+func VH_c05_two_regs_vs_complete_1() {
+	scenario("1+reg|reg|C", 1, []int{kOnComplete, kForeach, kComplete}, false)
+}
+func VH_c05_two_regs_vs_complete_2() {
+	scenario("2+reg|reg|S", 2, []int{kOnComplete, kOnComplete, kSuccess}, false)
+}
+func VH_c05_two_regs_vs_complete_3() {
+	scenario("3+reg|reg|S", 3, []int{kOnComplete, kOnComplete, kSuccess}, false)
+}
+func VH_c05_two_regs_vs_complete_4() {
+	scenario("4+reg|reg|F", 4, []int{kOnComplete, kOnFailure, kFailure}, false)
+}
+func VH_c05_two_regs_no_completion_3() {
+	scenario("3+reg|reg", 3, []int{kOnComplete, kOnSuccess}, false)
+}
+func VH_c05_reg_and_two_completers() {
+	scenario("2+reg|S|C", 2, []int{kOnComplete, kSuccess, kComplete}, false)
+}
+func VH_c05_default_executor() {
+	scenario("go-executor 1+reg|S", 1, []int{kOnComplete, kSuccess}, true)
+}
+func VH_c05_default_executor_2() {
+	scenario("go-executor 0+reg|reg|S", 0, []int{kOnComplete, kOnSuccess, kSuccess}, true)
+}
 
 // after completion, late registrations are dispatched at once
 func VH_c05_late_registration() {
